@@ -176,10 +176,13 @@ def impl_run(ops, whitespace=True):
             k = op[0]
             if k == 'push':
                 w.push_tag(op[1], list(op[2]))
-                try:
-                    i = block(i + 1, False)
-                except _Unwind as u:       # caught at the push frame; continue inside it
-                    i = block(u.i, False)
+                i += 1
+                while True:
+                    try:
+                        i = block(i, False)
+                        break
+                    except _Unwind as u:       # caught at the push frame; continue inside it (any number of times)
+                        i = u.i
                 continue
             if k == 'enter':
                 with w.tagcontext(op[1], list(op[2])):
